@@ -17,8 +17,8 @@ func Hostile(t *rapid.T, label, marker string) string {
 		sb.WriteString(hostileFragment(t, label, marker, i))
 	}
 	s := sb.String()
-	if len(s) > 2000 {
-		s = s[:2000]
+	if len(s) > 4200 {
+		s = s[:4200]
 	}
 	// one string in ten is dressed up as a single encoded-word (so that it starts with "=?" and ends
 	// with "?="), whatever it contains
@@ -36,7 +36,7 @@ var hostileConsts = []string{
 }
 
 func hostileFragment(t *rapid.T, label, marker string, i int) string {
-	kind := rapid.IntRange(0, 13).Draw(t, fmt.Sprintf("%s-kind%d", label, i))
+	kind := rapid.IntRange(0, 14).Draw(t, fmt.Sprintf("%s-kind%d", label, i))
 	switch kind {
 	case 0: // header injection
 		brk := rapid.SampledFrom([]string{"\r\n", "\n", "\r", "\r\n\r\n", "\n\n"}).Draw(t, label+"-brk")
@@ -57,6 +57,10 @@ func hostileFragment(t *rapid.T, label, marker string, i int) string {
 		return rapid.SampledFrom([]string{"=?UTF-8?q?evil?=", " =?UTF-8?q?ev=69l?= ", "=?utf-8?b?ZXZpbA==?=", "=?UTF-8?q?a?= =?UTF-8?q?b?=", "=?UTF-8?q?", "?= x", "=?x?q??=", "=?UTF-8?Q?=0D=0AX-Inj:_1?="}).Draw(t, label+"-ew")
 	case 5: // long single word
 		return strings.Repeat(rapid.SampledFrom([]string{"a", "é", "=", "x."}).Draw(t, label+"-wch"), rapid.SampledFrom([]int{60, 70, 75, 76, 77, 78, 79, 100, 300}).Draw(t, label+"-wlen"))
+	case 14: // one very long blank-free ASCII token (a signed URL, a JWT): around the 998-character line limit and beyond
+		n := rapid.SampledFrom([]int{900, 990, 995, 996, 997, 998, 999, 1000, 1200, 1996, 2500, 4000}).Draw(t, label+"-toklen")
+		unit := rapid.SampledFrom([]string{"a", "abcdefghij", "x.", "aB3-_"}).Draw(t, label+"-tokunit")
+		return strings.Repeat(unit, n/len(unit)+1)[:n]
 	case 6: // many words
 		k := rapid.IntRange(2, 40).Draw(t, label+"-nwords")
 		var parts []string
@@ -148,6 +152,7 @@ func HostileSingles(marker string) []string {
 		marker + " =?UTF-8?q?evil?=", "=?UTF-8?q?" + marker + "?=", marker + "=?utf-8?b?ZXZpbA==?=",
 		"=?UTF-8?q?" + marker + "\r\nX-Inj-" + marker + ": 1 ?=", "=?UTF-8?b?" + marker + "\r\n\r\ninjected body?=", "=?UTF-8?q?" + marker + "\nBcc: x@verif.example\n?=", "=?x?Q?" + marker + "\x00\xff caf\u00e9?=",
 		marker + strings.Repeat("x", 300), marker + " " + strings.Repeat("word ", 60), marker + strings.Repeat("\u00e9", 120),
+		marker + strings.Repeat("t", 994), marker + strings.Repeat("t", 1000), marker + " " + strings.Repeat("abcdefghij", 250) + " tail",
 		marker + "Content-Type: text/html", marker + "\r\nContent-Type: text/html\r\n", marker + "\r\n--boundary--", marker + "\r\n.\r\n",
 		marker + "\r\nBcc: x@verif.example",
 	}
